@@ -33,9 +33,15 @@ func NewYamlDecoder(prefs YamlPreferences) Decoder {
 }
 
 func (dec *yamlDecoder) processReadStream(reader *bufio.Reader) (io.Reader, string, error) {
-	var commentLineRegEx = regexp.MustCompile(`^\s*#`)
-	var yamlDirectiveLineRegEx = regexp.MustCompile(`^\s*%YA`)
+	// (blanks and tabs only: \s would also match a line break, and a blank line followed by a comment would be taken
+	// for a comment line itself)
+	var commentLineRegEx = regexp.MustCompile(`^[ \t]*#`)
+	var yamlDirectiveLineRegEx = regexp.MustCompile(`^[ \t]*%YA`)
 	var sb strings.Builder
+	// set while the text looked at follows a `--- ` on the same line: it belongs to the document (`--- --- x` is the
+	// scalar "--- x"), only a comment may still be leading content
+	afterSeparatorOnThisLine := false
+	seenSeparator := false
 	for {
 		peekBytes, err := reader.Peek(4)
 		if errors.Is(err, io.EOF) && len(peekBytes) > 0 {
@@ -55,7 +61,20 @@ func (dec *yamlDecoder) processReadStream(reader *bufio.Reader) (io.Reader, stri
 			} else if err != nil {
 				return reader, sb.String(), err
 			}
+		} else if afterSeparatorOnThisLine && !commentLineRegEx.MatchString(string(peekBytes)) {
+			if strings.HasPrefix(string(peekBytes), "---") || peekBytes[0] == ' ' || peekBytes[0] == '\t' {
+				// `--- --- x` is the text "--- x", and blanks or a tab here are the rest of the separator line: the
+				// parser can only tell when it sees the separator as well
+				return io.MultiReader(strings.NewReader("--- "), reader), sb.String(), nil
+			}
+			return reader, sb.String(), nil
+		} else if seenSeparator && (string(peekBytes) == "--- " || string(peekBytes) == "---\n") {
+			// a second separator: the first document is empty. The parser is shown the first one again, or it would
+			// take the second for the start of the only document
+			return io.MultiReader(strings.NewReader("---\n"), reader), sb.String(), nil
 		} else if string(peekBytes) == "--- " {
+			seenSeparator = true
+			afterSeparatorOnThisLine = true
 			_, err := reader.ReadString(' ')
 			sb.WriteString("$yqDocSeparator$\n")
 			if errors.Is(err, io.EOF) {
@@ -64,6 +83,7 @@ func (dec *yamlDecoder) processReadStream(reader *bufio.Reader) (io.Reader, stri
 				return reader, sb.String(), err
 			}
 		} else if string(peekBytes) == "---\n" {
+			seenSeparator = true
 			_, err := reader.ReadString('\n')
 			sb.WriteString("$yqDocSeparator$\n")
 			if errors.Is(err, io.EOF) {
@@ -72,6 +92,7 @@ func (dec *yamlDecoder) processReadStream(reader *bufio.Reader) (io.Reader, stri
 				return reader, sb.String(), err
 			}
 		} else if commentLineRegEx.MatchString(string(peekBytes)) || yamlDirectiveLineRegEx.MatchString(string(peekBytes)) {
+			afterSeparatorOnThisLine = false
 			line, err := reader.ReadString('\n')
 			sb.WriteString(line)
 			if errors.Is(err, io.EOF) {
